@@ -383,6 +383,60 @@ theorem C02_derived_calls_chain {s : Schema} {n : String} {c : List Entity} (h :
     (x, cr) ∈ derivedCalls s n ↔ DerivedCall (flatAttrs c) x cr :=
   derivedCalls_chain h hf x cr
 
+/-- Which attributes of a fresh instance are flagged `_derive` (written `*`), for every entity with a single-inheritance ancestry
+    of any length: exactly those whose name occurs again further down the chain (a redeclaration) — the set Part 21 11.2.6
+    intends, plus the attributes redeclared as EXPLICIT (`C02_flags_explicit_redeclaration_witness`).
+    Partial: excluded are instances with an entity of several supertypes in their ancestry, where a derivation on a non-principal
+    path is lost (`C02_flags_second_supertype_witness`); `KeysNodup`: (owner, registered name) tells the attributes apart. -/
+theorem C02_flags_derive_chain_partial {s : Schema} {n : String} {c : List Entity} (h : IsChain s n c)
+    (hf : c.length ≤ fuelOf s) (hk : KeysNodup c) (l : List (SA × Bool × Bool)) (hl : instanceFlags s n = some l) :
+    (∀ a ∈ c.flatMap ownSAs, ∃ d r, (a, d, r) ∈ l) ∧
+    ∀ a d r, (a, d, r) ∈ l → (d = true ↔ DerivedCall (flatAttrs c) a.name a.owner) := by
+  have cs := chain_state h (fuelOf s) hf hf hk
+  unfold instanceFlags at hl
+  have hkey := C02_push_compares_descriptor
+  simp only [hkey, Option.some.injEq] at hl
+  subst hl
+  generalize ctorNF s (fuelOf s) n {} = st at cs
+  constructor
+  · intro a ha
+    rw [← cs.sas] at ha
+    obtain ⟨o, ho, rfl⟩ := List.mem_map.mp ha
+    obtain ⟨j, hj, hget⟩ := List.getElem_of_mem ho
+    refine ⟨o.derive, o.redef, ?_⟩
+    simp only [List.mem_filterMap]
+    exact ⟨j, (cs.hall j).mpr hj, by rw [List.getElem?_eq_getElem hj, hget]; rfl⟩
+  · intro a d r hmem
+    simp only [List.mem_filterMap] at hmem
+    obtain ⟨id, hid, ho⟩ := hmem
+    cases hobj : st.objs[id]? with
+    | none => rw [hobj] at ho; simp at ho
+    | some o =>
+      rw [hobj] at ho
+      simp only [Option.map_some, Option.some.injEq, Prod.mk.injEq] at ho
+      obtain ⟨rfl, rfl, rfl⟩ := ho
+      have hsa : saAt st id = some o.sa := by simp [saAt, hobj]
+      have := cs.der id o.sa hsa
+      simpa [dAt, hobj] using this
+
+/-- non-vacuity of `C02_flags_derive_chain_partial`: a three-entity chain with a derived and an explicit redeclaration -/
+def exChain : Schema :=
+  { name := "ch", entities := [
+      { name := "a", attrs := [{ name := "x", type := .base .integer }, { name := "y", type := .base .real }] },
+      { name := "b", supers := ["a"], attrs := [{ name := "b1", type := .base .integer },
+                                                { name := "x", redecl := some "a", kind := .derived, type := .base .integer }] },
+      { name := "r", supers := ["b"], attrs := [{ name := "y", redecl := some "a", type := .base .real }] }] }
+
+example : IsChain exChain "r" ([exChain.entities[0]!] ++ [exChain.entities[1]!] ++ [exChain.entities[2]!]) :=
+  IsChain.step "r" "b" _ _ (by decide) rfl
+    (IsChain.step "b" "a" _ _ (by decide) rfl (IsChain.root "a" _ (by decide) rfl))
+
+example : KeysNodup exChain.entities := by unfold KeysNodup; decide
+
+example : instanceFlags exChain "r" =
+    some [(⟨"a", "x", .E⟩, true, false), (⟨"a", "y", .E⟩, true, true), (⟨"b", "b1", .E⟩, false, false),
+          (⟨"r", "a.y", .R⟩, false, false)] := by decide
+
 /-- Deviation 1 from what Part 21 intends (11.2.6: only a redeclaration AS DERIVED makes the supertype's position `*`): an
     EXPLICIT redeclaration `SELF\a.y : REAL` also marks `a.y` derived (and redefined).  Asked of the real code: INST lines of
     corpus d1-diamond-explicit-redeclaration show `a.y/Edr`. -/
